@@ -15,6 +15,12 @@ CLAIMED = {
     "C08": dict(level="model_checking", ref="4/C08", technique="TLA+ trace validation (LinTrace!IllFormed / BadErr) of real Linearizer outputs and errors on TLC-enumerated model families incl. naming corner cases",
                 text="Structural predicate over every compile outcome of corpus K plus family E (duplicate names, $-named user variables, infinite constants, empty aggregations, unbounded operands); guessed constants are excluded semantically by C01 far-point samples.",
                 note="name order is passed as byte-order ranks computed by the harness; finiteness is read from f64::is_finite by the harness"),
+    "C13": dict(level="model_checking", ref="4/C13", technique="TLA+ trace validation (StdFormTrace: two-way point correspondence on a grid of image columns) of real into_standard_form outputs (hook H2) on TLC-enumerated LPs",
+                text="TLC enumerates small continuous LPs (LpGen); for each, the real standard form is validated: shape, and for every grid assignment of the image columns feasibility in the standard form is equivalent to feasibility of the mapped-back original point with equal objective after flip and offset.",
+                note="grid points only; hook H2 accessors trusted"),
+    "C14": dict(level="model_checking", ref="4/C14", technique="TLC model checking of Simplex.tla (all admissible pivots; Bland termination) + step-by-step TLA+ trace validation of the real Tableau (hook H3) against it",
+                text="Simplex.tla states the pivot rule nondeterministically and TLC checks its invariants (unit basis, feasibility, equivalence with the initial system, objective bookkeeping, optimality at Finish, monotonicity) for all 2x4 starts; every recorded pivot of the real Tableau must be a step of that machine and its float tableau must match the exact successor.",
+                note="integer start data; float comparison at 3e-4; termination claimed for solve/solve_step_by_step"),
 }
 NOT_YET = {}
 ALL = [f"C{i:02d}" for i in range(1, 21)]
@@ -44,7 +50,7 @@ m = {
         "guard": "--cfg rooc_verif",
         "enable": "harness/.cargo/config.toml sets rustflags --cfg rooc_verif for the harness build (path dependency on /repo/packages/rooc)",
         "baseline_off_cmd": "cd /repo/packages/rooc && cargo test --workspace --no-fail-fast --offline",
-        "source_commits": ["fa39267"],
+        "source_commits": ["fa39267", "3fa75bf"],
         "add_only": True,
     },
     "engines": [
